@@ -1,6 +1,7 @@
 import HqModel.Alloc.Run
 import HqModel.Lemmas.AllocInv
 import HqModel.Lemmas.AllocExact
+import HqModel.Lemmas.AllocReach
 /-!
 # C04 — worker resources are exclusive and conserved
 
@@ -86,6 +87,91 @@ theorem c04_exclusive {d : Descriptor} {s₀ s : State} (hinit : State.init d = 
   · have := hinv.pools.sum rid full free hp
     omega
 
+/-- **c04_release.** In every reachable state (a) `release_allocation` of any live allocation never stops (no failing
+`unwrap`, `assert!`, index), and (b) a grant followed by the release of that grant restores the free state: the same
+allocations are live and, for every resource, every group and every index, the free amount (`freeAmt`: one unit if
+the index is in the free list, else its free fraction) is what it was — i.e. the free lists and fraction maps are the
+same as multisets per group — and sum pools have their free amount back. -/
+theorem c04_release {d : Descriptor} {s₀ s : State} (hinit : State.init d = some s₀) (hns : NoSingletonGroups s₀)
+    (hreach : Reach s₀ s) :
+    (∀ h al, liveGet s.live h = some al → ∃ s', release s h = some (.ok s')) ∧
+    (∀ h rq ch al s₁, tryAllocate s h rq ch = .ok (some al, s₁) →
+      ∃ s₂, release s₁ h = some (.ok s₂) ∧ s₂.live = s.live ∧
+        ∀ (rid : Nat) (p p₂ : Pool), s.pools[rid]? = some p → s₂.pools[rid]? = some p₂ →
+          (∀ gid i, freeAmt p₂.groupsOf gid i = freeAmt p.groupsOf gid i) ∧ p₂.tag = p.tag ∧
+            p₂.sumFree = p.sumFree) := by
+  have hinv := reach_inv2 hinit hns hreach
+  obtain ⟨-, hU⟩ := init_inv2 hinit hns
+  refine ⟨fun h al hg => ?_, fun h rq ch al s₁ halloc => ?_⟩
+  · obtain ⟨s', hr, -⟩ := release_inv2 hinv hU hg
+    exact ⟨s', hr⟩
+  · have hinv₁ := tryAllocate_inv2 hinv hU halloc
+    obtain ⟨-, hkinds₁⟩ := tryAllocate_exact halloc
+    have hlive₁ : s₁.live = (h, al) :: s.live := by
+      unfold tryAllocate at halloc
+      split at halloc
+      · cases halloc
+      · cases halloc
+      · cases halloc
+      · split at halloc
+        · cases halloc
+        · cases halloc
+        · split at halloc
+          · cases halloc
+          · simp only [Except.ok.injEq, Prod.mk.injEq, Option.some.injEq] at halloc
+            obtain ⟨rfl, rfl⟩ := halloc
+            rfl
+    have hg₁ : liveGet s₁.live h = some al := by rw [hlive₁]; simp [liveGet]
+    obtain ⟨s₂, hr, hinv₂⟩ := release_inv2 hinv₁ hU hg₁
+    obtain ⟨hlive₂, al', hg', hrp⟩ := release_live hr
+    have hlive : s₂.live = s.live := by rw [hlive₂, hlive₁]; simp [liveErase]
+    obtain ⟨hlen₂, hkinds₂⟩ := releasePools_kinds hrp
+    refine ⟨s₂, hr, hlive, fun rid p p₂ hp hp₂ => ?_⟩
+    have hr₁ : rid < s₁.pools.length := by rw [← hkinds₁.1]; exact lt_length_of_getElem? hp
+    obtain ⟨p₁, hp₁⟩ := exists_get hr₁
+    obtain ⟨t₁, f₁, -⟩ := hkinds₁.2 rid p p₁ hp hp₁
+    obtain ⟨t₂, f₂, -, -⟩ := hkinds₂ rid p₁ p₂ hp₁ hp₂
+    have c := (hinv.inv.pools.pool rid p hp).conserve
+    have c₂ := (hinv₂.inv.pools.pool rid p₂ hp₂).conserve
+    rw [hlive] at c₂
+    refine ⟨fun gid i => by have := c gid i; have := c₂ gid i; omega, by rw [t₂, t₁], ?_⟩
+    cases p with
+    | sum full free =>
+      have ht₂ : p₂.tag = 3 := by rw [t₂, t₁]; rfl
+      cases p₂ with
+      | sum full₂ free₂ =>
+        have hf : full₂ = full := by
+          have : (Pool.sum full₂ free₂).fullSize = (Pool.sum full free).fullSize := by rw [f₂, f₁]
+          simpa [Pool.fullSize] using this
+        subst hf
+        have e := hinv.inv.pools.sum rid full₂ free hp
+        have e₂ := hinv₂.inv.pools.sum rid full₂ free₂ hp₂
+        rw [hlive] at e₂
+        simp only [Pool.sumFree]
+        omega
+      | _ => simp [Pool.tag] at ht₂
+    | empty =>
+      have : p₂.tag = 0 := by rw [t₂, t₁]; rfl
+      rw [sumFree_of_tag (by omega)]; rfl
+    | indices _ _ =>
+      have : p₂.tag = 1 := by rw [t₂, t₁]; rfl
+      rw [sumFree_of_tag (by omega)]; rfl
+    | groups _ _ =>
+      have : p₂.tag = 2 := by rw [t₂, t₁]; rfl
+      rw [sumFree_of_tag (by omega)]; rfl
+
+/-- **c04_concise.** In every reachable state `ConciseFreeResources` equals `summary pools`
+(`ResourcePool::concise_state`) for every resource: same number of groups, same units per group and the same free
+fraction for every index, where an absent map entry counts as 0 (`CEquiv` = equality after `strip_zeros`, the
+relation `ResourceAllocator::validate()` asserts in debug builds only). -/
+theorem c04_concise {d : Descriptor} {s₀ s : State} (hinit : State.init d = some s₀) (hns : NoSingletonGroups s₀)
+    (hreach : Reach s₀ s) :
+    s.concise.length = s.pools.length ∧
+      ∀ (rid : Nat) (p : Pool) (c : CState), s.pools[rid]? = some p → s.concise[rid]? = some c →
+        CEquiv c p.conciseState := by
+  have hinv := reach_inv2 hinit hns hreach
+  exact ⟨hinv.concise.len, fun rid p c hp hc => concise_eq_summary hinv rid p c hp hc⟩
+
 /-- **c04_exact.** A successful `tryAllocate rq` (any state, any allowed choices) returns only resource allocations
 that answer an entry of the request exactly: same resource id, `amount` = the requested amount (`all` ⇒ the full size
 of the pool), and
@@ -124,6 +210,25 @@ theorem exS_reach : Reach exS₀ exS := reach_of_runOps Reach.init (Option.some_
 example : State.init exDesc = some exS₀ ∧ Reach exS₀ exS ∧ exS.live.length = 2 ∧
     heldBy (heldOf exS.live 1) 0 1 = 7500 ∧ heldAmount exS.live 2 = 5000 :=
   ⟨exS₀_init, exS_reach, by decide, by decide, by decide⟩
+
+/-- the side condition holds for the example and its reachable state has live allocations (non-vacuity of
+`c04_release`, `c04_concise`) -/
+example : NoSingletonGroups exS₀ ∧ (liveGet exS.live 1).isSome := by
+  refine ⟨?_, by decide⟩
+  intro rid p hp ht
+  have h4 : rid < 3 := by
+    have := lt_length_of_getElem? hp
+    simpa [exS₀, State.init, exDesc, placeItems] using this
+  match rid, h4 with
+  | 0, _ =>
+    have : p = (exS₀.pools[0]?).get (by decide) := by simp [hp]
+    subst this; decide
+  | 1, _ =>
+    have : p = (exS₀.pools[1]?).get (by decide) := by simp [hp]
+    subst this; revert ht; decide
+  | 2, _ =>
+    have : p = (exS₀.pools[2]?).get (by decide) := by simp [hp]
+    subst this; revert ht; decide
 
 /-- `c04_exact` is not vacuous: the second grant of the example exists and contains a fractional entry -/
 example : ∃ al s', tryAllocate
